@@ -192,6 +192,9 @@ func (s *Stats) observe(st *Step, r *Result) {
 			if len(e.Fields) >= 3 && strings.HasPrefix(e.Fields[2], "FAULT:") {
 				s.Faults["io:"+e.Fields[0]+":"+strings.TrimPrefix(e.Fields[2], "FAULT:")]++
 			}
+			if len(e.Fields) >= 1 && e.Fields[0] == "stdin-read" {
+				s.Faults["io:stdin:short-read"]++
+			}
 		case "NET":
 			s.NetRequests++
 			if len(e.Fields) >= 3 && strings.HasPrefix(e.Fields[2], "FAULT:") {
